@@ -11,7 +11,7 @@ def scalar(rng, kinds="snbz"):
     if k == "s":
         return rng.choice(STRS)
     if k == "n":
-        return rng.choice([0, 1, 2, 3, -1, 10, 42, 1000000, -7])
+        return rng.choice([0, 1, 2, 3, -1, 10, 42, 1000000, -7, 0, -0.0])   # -0.0: JSON text -0, equal to 0 for the matcher
     if k == "b":
         return rng.choice([True, False])
     return None
